@@ -562,7 +562,9 @@ Theorem build_name_is_hash : forall l out,
 Proof.
   intros l out H. unfold build in H. destruct (accumulate l) as [rm| | |]; try discriminate. cbn [bind] in H.
   exists rm. split; [reflexivity|].
-  apply mapM_Forall2 in H. induction H; constructor; auto. apply add_hash_spec. assumption.
+  destruct (mapM add_hash rm) as [out'| | |] eqn:Em; cbn [bind] in H; try discriminate.
+  destruct (hash_ids_unique out'); [|discriminate]. inversion H. subst out'.
+  apply mapM_Forall2 in Em. induction Em; constructor; auto. apply add_hash_spec. assumption.
 Qed.
 
 (* the two theorems together, for a chain: the suffix is the hash of the content whose data is the dictionary fold *)
@@ -797,8 +799,8 @@ Example ambiguous_example :
                (ld [] [ga "cfg" "merge" ["b=1"] []] "" "" "")) = Err.
 Proof. vm_compute. reflexivity. Qed.
 
-(* regression (was the witness of merge-key-in-data-and-binaryData until MergeDataMapFrom / MergeBinaryDataMapFrom
-   dropped the key from the other map): a text value merged over a binary one leaves the key in data only *)
+(* regression (was the witness of merge-key-in-data-and-binaryData until the repair 0a87769 of MergeDataMapFrom /
+   MergeBinaryDataMapFrom): a text value merged over a binary one leaves the key in data only *)
 Definition stale_tree : layer :=
   Layer [Layer [] (ld [("bin.dat", sb [255; 254]%N)] [ga "cfg" "" [] ["k=bin.dat"]] "" "" "")]
         (ld [] [ga "cfg" "merge" ["k=text"] []] "" "" "").
@@ -808,7 +810,7 @@ Example keys_disjoint_regression :
             dict_get "k" (dict_of_opt (g_data o)) = Some "text" /\ dict_get "k" (g_bin o) = None.
 Proof. eexists. split; [vm_compute; reflexivity|]. vm_compute. split; reflexivity. Qed.
 
-(* regression (was the witness of hash-yaml-roundtrip-leading-tab): a file starting with a TAB, two lines, builds *)
+(* regression (was the witness of hash-yaml-roundtrip-leading-tab until the repair baa93c5): a file starting with a TAB, two lines, builds *)
 Definition tab_tree : layer :=
   Layer [] (ld [("f.txt", sb [9; 120; 10; 121]%N)] [ga "cfg" "" [] ["k=f.txt"]] "" "" "").
 
@@ -824,13 +826,11 @@ Lemma build_total_refuted :
   (exists o, accumulate merge_key_tree = Ok [o] /\ g_data o = Some [("<<", "v")]) /\ build merge_key_tree = Err.
 Proof. split; [eexists; vm_compute; split; reflexivity|vm_compute; reflexivity]. Qed.
 
-(* regression (was the witness of hash-ignores-null-named-keys): the data changes under the key null, so does the name *)
+(* finding hash-ignores-null-named-keys: the data changes, the name does not *)
 Definition null_tree (v : string) : layer :=
   Layer [] (ld [] [ga "cfg" "" ["null=" ++ v; "k=v"] []] "" "" "").
 
-Example null_key_regression :
+Lemma fresh_name_refuted :
   exists o o', build (null_tree "a") = Ok [o] /\ build (null_tree "b") = Ok [o'] /\
-               g_data o <> g_data o' /\ g_name o <> g_name o'.
-Proof.
-  do 2 eexists. split; [vm_compute; reflexivity|]. split; [vm_compute; reflexivity|]. vm_compute. split; discriminate.
-Qed.
+               g_data o <> g_data o' /\ g_name o = g_name o'.
+Proof. do 2 eexists. vm_compute. repeat split. discriminate. Qed.
